@@ -292,6 +292,11 @@ func checkC07(c *Ctx) {
 	}
 	// 1. small-scope matrix, validated against the reference semantics (class value / error) by TLC
 	ss := smallScopePrograms(c.Thorough())
+	for _, cs := range c01SmallScope(c.Thorough()) {
+		if cs.Group == "call" || cs.Group == "variadic" {
+			ss = append(ss, ssCase{Group: cs.Group, Prog: cs.Prog})
+		}
+	}
 	var semCases []semCase
 	stride := 1
 	if !c.Thorough() {
